@@ -9,7 +9,7 @@
 //                                               and on owners with one earlier link
 //   drv_alias --out F --mode scripted           short fixed histories (chains, cycles, assignment into a
 //                                               non-empty owner, copies, renaming)
-//   drv_alias --out F --mode probe              the history that exhibits the known divergence
+//   drv_alias --out F --mode probe              chain whose middle already holds the written value (alone)
 //
 // Encoding: values are indices (1-based) into a per-scenario sorted pool of
 // random doubles; parameter k is named "p<k>"; namespaces are numbered.
@@ -53,13 +53,34 @@ public:
   }
 };
 
+struct Con
+{
+  long lo = 0, hi = 0; // pool indices (1-based); lo == 0: unconstrained
+  bool il = true, iu = true;
+  bool some() const { return lo > 0; }
+  bool accepts(long x) const { return !some() || ((il ? x >= lo : x > lo) && (iu ? x <= hi : x < hi)); }
+};
+
+// name returned by a query -> parameter number, whether or not it carries the namespace
+static int normId(const std::string& name, const std::string& ns)
+{
+  if (name.empty()) return 0;
+  if (!ns.empty() && name.compare(0, ns.size(), ns) == 0)
+  {
+    std::string b = name.substr(ns.size());
+    if (b.size() == 2 && b[0] == 'p' && b[1] >= '0' && b[1] <= '9') return b[1] - '0';
+  }
+  if (name.size() == 2 && name[0] == 'p' && name[1] >= '0' && name[1] <= '9') return name[1] - '0';
+  return -1;
+}
+
 // What the public queries say about one owner (used for logging and for steering).
 struct View
 {
   int ns = -1;
   std::vector<int> names;
   std::map<int, long> val;
-  std::map<int, std::pair<long, long>> con; // absent = unconstrained
+  std::map<int, Con> con;                   // absent = unconstrained
   std::map<int, int> from;                  // 0 = not aliased
   std::set<int> indep;
   bool hasp(int k) const { return val.count(k) != 0; }
@@ -91,6 +112,15 @@ struct Scn
     return "?" + full;
   }
 
+  // getFrom asked with both spellings of the name; the answer with the namespace removed
+  static int fromOf(const Owner& w, const std::string& ns, const std::string& b)
+  {
+    int f1 = normId(w.getFrom(ns + b), ns);
+    int f2 = ns.empty() ? 0 : normId(w.getFrom(b), ns);
+    if (f1 != 0 && f2 != 0 && f1 != f2) return -1;
+    return f1 != 0 ? f1 : f2;
+  }
+
   View view(int o) const
   {
     const Owner& w = *own.at(o);
@@ -106,11 +136,14 @@ struct Scn
       if (pl[i].hasConstraint())
       {
         auto ic = std::dynamic_pointer_cast<const bpp::IntervalConstraint>(pl[i].getConstraint());
-        if (ic) v.con[k] = std::make_pair(vidx(ic->getLowerBound()), vidx(ic->getUpperBound()));
-        else v.con[k] = std::make_pair(UNK, UNK);
+        Con c;
+        c.lo = ic ? vidx(ic->getLowerBound()) : UNK;
+        c.hi = ic ? vidx(ic->getUpperBound()) : UNK;
+        c.il = ic ? !ic->strictLowerBound() : true;
+        c.iu = ic ? !ic->strictUpperBound() : true;
+        v.con[k] = c;
       }
-      std::string f = w.getFrom(pl[i].getName());
-      v.from[k] = f.empty() ? 0 : nameId(f);
+      v.from[k] = fromOf(w, ns, strip(pl[i].getName(), ns));
     }
     const bpp::ParameterList& ip = w.getIndependentParameters();
     for (size_t i = 0; i < ip.size(); ++i) v.indep.insert(nameId(strip(ip[i].getName(), ns)));
@@ -122,57 +155,64 @@ struct Scn
   {
     const Owner& w = *own.at(o);
     std::string ns = w.getNamespace();
-    Arr pars, ind, from, als;
+    Arr pars, ind, from, als, direct, hasind;
     const bpp::ParameterList& pl = w.getParameters();
     std::map<int, int> fr;
+    std::vector<std::pair<int, std::string>> names;
     for (size_t i = 0; i < pl.size(); ++i)
     {
-      int k = nameId(strip(pl[i].getName(), ns));
+      std::string b = strip(pl[i].getName(), ns);
+      int k = nameId(b);
+      names.push_back(std::make_pair(k, b));
       Arr c;
       if (pl[i].hasConstraint())
       {
         auto ic = std::dynamic_pointer_cast<const bpp::IntervalConstraint>(pl[i].getConstraint());
         if (!ic) c.add(UNK);
-        else
-        {
-          c.add(vidx(ic->getLowerBound())).add(vidx(ic->getUpperBound()));
-          if (ic->strictLowerBound() || ic->strictUpperBound()) c.add("open");
-        }
+        else c.add(vidx(ic->getLowerBound())).add(vidx(ic->getUpperBound())).add(!ic->strictLowerBound()).add(!ic->strictUpperBound());
       }
       pars.add(Arr().add(k).add(vidx(pl[i].getValue())).add(c));
-      if (ns.empty())
-      {
-        std::string f = w.getFrom(pl[i].getName());
-        int fk = f.empty() ? 0 : nameId(f);
-        fr[k] = fk;
-        from.add(Arr().add(k).add(fk));
-      }
+      int fk = fromOf(w, ns, b);
+      fr[k] = fk;
+      from.add(Arr().add(k).add(fk));
+      if (w.hasIndependentParameter(b) || (!ns.empty() && w.hasIndependentParameter(ns + b))) hasind.add(k);
     }
     const bpp::ParameterList& ip = w.getIndependentParameters();
     for (size_t i = 0; i < ip.size(); ++i)
       ind.add(Arr().add(nameId(strip(ip[i].getName(), ns))).add(vidx(ip[i].getValue())));
-    if (ns.empty())
+    // getAliases / getAlias recurse along chains: only ask when the direct links are acyclic
+    bool cyc = false;
+    for (auto& kv : fr)
     {
-      // getAliases recurses along chains: only ask when the direct links are acyclic
-      bool cyc = false;
-      for (auto& kv : fr)
+      int c = kv.first, steps = 0;
+      while (c > 0 && fr.count(c) && fr[c] != 0 && steps <= 8)
       {
-        int c = kv.first, steps = 0;
-        while (c > 0 && fr.count(c) && fr[c] != 0 && steps <= 8)
-        {
-          c = fr[c];
-          ++steps;
-        }
-        if (steps > 8) cyc = true;
+        c = fr[c];
+        ++steps;
       }
-      if (cyc) als.add(Arr().add(-1).add(-1));
-      else
+      if (steps > 8) cyc = true;
+    }
+    if (cyc)
+    {
+      als.add(Arr().add(-1).add(-1));
+      direct.add(Arr().add(-1).add(Arr()));
+    }
+    else
+    {
+      std::map<std::string, std::string> m = w.getAliases();
+      for (auto& kv : m) als.add(Arr().add(normId(kv.first, ns)).add(normId(kv.second, ns)));
+      for (auto& nb : names)
       {
-        std::map<std::string, std::string> m = w.getAliases();
-        for (auto& kv : m) als.add(Arr().add(nameId(kv.first)).add(nameId(kv.second)));
+        std::set<int> f;
+        for (auto& x : w.getAlias(nb.second)) f.insert(normId(x, ns));
+        if (!ns.empty())
+          for (auto& x : w.getAlias(ns + nb.second)) f.insert(normId(x, ns));
+        Arr fl;
+        for (int x : f) fl.add(x);
+        direct.add(Arr().add(nb.first).add(fl));
       }
     }
-    return Arr().add(o).add(nsId(ns)).add(pars).add(ind).add(from).add(als);
+    return Arr().add(o).add(nsId(ns)).add(pars).add(ind).add(from).add(als).add(direct).add(hasind);
   }
   Arr state() const
   {
@@ -194,15 +234,15 @@ struct Scn
     tracer().flush(); // a crash must never leave half an event behind
   }
 
-  void opNew(int o, int ns, const std::vector<int>& names, const std::vector<long>& vals, const std::vector<std::pair<long, long>>& cons)
+  void opNew(int o, int ns, const std::vector<int>& names, const std::vector<long>& vals, const std::vector<Con>& cons)
   {
     Arr pars;
     std::string oc = outcome<bpp::Exception>([&]() {
-      std::unique_ptr<Owner> w(new Owner(""));
+      std::unique_ptr<Owner> w(new Owner(NSTR[ns]));
       for (size_t i = 0; i < names.size(); ++i)
       {
         std::shared_ptr<bpp::ConstraintInterface> c;
-        if (cons[i].first > 0) c.reset(new bpp::IntervalConstraint(dv(cons[i].first), dv(cons[i].second), true, true));
+        if (cons[i].some()) c.reset(new bpp::IntervalConstraint(dv(cons[i].lo), dv(cons[i].hi), cons[i].il, cons[i].iu));
         w->add(bare(names[i]), dv(vals[i]), c);
       }
       own[o] = std::move(w);
@@ -210,13 +250,12 @@ struct Scn
     for (size_t i = 0; i < names.size(); ++i)
     {
       Arr c;
-      if (cons[i].first > 0) c.add(cons[i].first).add(cons[i].second);
+      if (cons[i].some()) c.add(cons[i].lo).add(cons[i].hi).add(cons[i].il).add(cons[i].iu);
       pars.add(Arr().add(names[i]).add(vals[i]).add(c));
     }
     Obj e;
-    e.kv("e", "New").kv("o", o).kv("pars", pars);
+    e.kv("e", "New").kv("o", o).kv("n", ns).kv("pars", pars);
     emit(e, oc);
-    if (ns != 0) opSetNs(o, ns);
   }
   void opAlias(int o, int a, int b)
   {
@@ -234,19 +273,21 @@ struct Scn
     e.kv("e", "Unalias").kv("o", o).kv("a", Arr().add(a).add(b));
     emit(e, oc);
   }
-  void opBulkAlias(int o, const std::map<int, int>& m)
+  // qualified: the names of the map carry the owner's namespace (as getParameters() spells them)
+  void opBulkAlias(int o, const std::map<int, int>& m, bool qualified = true)
   {
     Owner& w = *own.at(o);
+    std::string q = qualified ? w.getNamespace() : "";
     std::map<std::string, std::string> sm;
     Arr ml;
     for (auto& kv : m)
     {
-      sm[bare(kv.first)] = bare(kv.second);
+      sm[q + bare(kv.first)] = q + bare(kv.second);
       ml.add(Arr().add(kv.first).add(kv.second));
     }
     std::string oc = outcome<bpp::Exception>([&]() { w.aliasParameters(sm, false); }, 3);
     Obj e;
-    e.kv("e", "BulkAlias").kv("o", o).kv("m", ml);
+    e.kv("e", "BulkAlias").kv("o", o).kv("m", ml).kv("sp", qualified ? "qualified" : "bare");
     emit(e, oc);
   }
   void opSet(int o, int a, long v)
@@ -314,7 +355,7 @@ struct Scn
 static bool accepts(const View& v, int p, long x)
 {
   auto it = v.con.find(p);
-  return it == v.con.end() || (it->second.first <= x && x <= it->second.second);
+  return it == v.con.end() || it->second.accepts(x);
 }
 static std::set<int> anc(const View& v, int b)
 {
@@ -380,21 +421,6 @@ static bool aliasRefused(const View& v, int a, int b)
   if (v.from.at(b) != 0 || !v.indep.count(b)) return true;
   return anc(v, a).count(b) != 0;
 }
-static bool aliasInside(const View& v, int a, int b)
-{
-  bool ca = v.con.count(a) != 0, cb = v.con.count(b) != 0;
-  if (!cb) return true;
-  if (!ca) return accepts(v, b, v.val.at(a));
-  long lo = std::max(v.con.at(a).first, v.con.at(b).first), hi = std::min(v.con.at(a).second, v.con.at(b).second);
-  return lo <= v.val.at(a) && v.val.at(a) <= hi && lo <= v.val.at(b) && v.val.at(b) <= hi;
-}
-static bool allInside(const View& v)
-{
-  for (int p : v.names)
-    for (int q : v.names)
-      if (!accepts(v, q, v.val.at(p))) return false;
-  return true;
-}
 static bool coherent(const View& v)
 {
   for (int p : v.names)
@@ -407,7 +433,7 @@ static bool coherent(const View& v)
 
 // ---------------------------------------------------------------- scenarios
 static long g_scen = 0, g_skipped = 0, g_calls = 0;
-static bool g_allowSC = false;
+static bool g_allowSC = true; // false: keep clear of chains whose middle already holds the written value (--steer-sc 1)
 
 static void reset(const std::string& kind, long id)
 {
@@ -419,19 +445,49 @@ static void reset(const std::string& kind, long id)
 
 static std::vector<double> makePool(Rng& r, size_t n)
 {
-  // distinct doubles, gaps >= 1 so that the 6-digit textual descriptions the
-  // library compares constraints by are distinct as well
+  // distinct increasing doubles.  Usually >= 1 apart; sometimes two neighbours agree in
+  // their first six significant digits (their textual descriptions are identical).
   std::vector<double> p;
   double x = -900.0 + 50.0 * r.unit();
+  size_t close = r.chance(1, 3) ? 1 + r.below(n - 1) : n + 1;
   for (size_t i = 0; i < n; ++i)
   {
-    x += 1.0 + 300.0 * r.unit();
+    x += (i == close) ? 1e-7 * (1.0 + r.unit()) : 1.0 + 300.0 * r.unit();
     p.push_back(x);
   }
   return p;
 }
 
-static void makeOwner(Scn& sc, Rng& r, int o, int profile)
+static Con noCon() { return Con(); }
+static Con mkCon(long lo, long hi, bool il = true, bool iu = true)
+{
+  Con c;
+  c.lo = lo;
+  c.hi = hi;
+  c.il = il;
+  c.iu = iu;
+  return c;
+}
+
+// a random constraint over the pool that accepts at least one pool value
+static Con randomCon(Rng& r, long V)
+{
+  for (;;)
+  {
+    long lo = r.range(1, V), hi = r.range(lo, V);
+    if (r.chance(1, 2))
+    {
+      lo = r.range(1, 2);
+      hi = r.range(V - 1, V);
+    }
+    Con c = mkCon(lo, hi, !r.chance(1, 4), !r.chance(1, 4));
+    for (long x = 1; x <= V; ++x)
+      if (c.accepts(x)) return c;
+  }
+}
+
+// profile: 0 no constraints, 1 few, 2 many;   nsMode: 0 mostly empty namespace, 1 mostly non-empty
+static void makeOwner(Scn& sc, Rng& r, int o, int profile, int nsMode)
 {
   int n = static_cast<int>(r.range(2, 6));
   std::vector<int> all = {1, 2, 3, 4, 5, 6}, names;
@@ -443,26 +499,20 @@ static void makeOwner(Scn& sc, Rng& r, int o, int profile)
   }
   if (r.coin()) std::sort(names.begin(), names.end());
   std::vector<long> vals;
-  std::vector<std::pair<long, long>> cons;
+  std::vector<Con> cons;
   long V = sc.V();
   for (int i = 0; i < n; ++i)
   {
     bool c = profile == 0 ? false : profile == 1 ? r.chance(1, 3) : r.chance(2, 3);
-    long lo = 0, hi = 0;
-    if (c)
-    {
-      lo = r.range(1, V);
-      hi = r.range(lo, V);
-      if (r.chance(1, 2))
-      {
-        lo = r.range(1, 2);
-        hi = r.range(V - 1, V);
-      }
-    }
-    cons.push_back(std::make_pair(lo, hi));
-    vals.push_back(c ? r.range(lo, hi) : r.range(1, V));
+    Con k = c ? randomCon(r, V) : noCon();
+    std::vector<long> ok;
+    for (long x = 1; x <= V; ++x)
+      if (k.accepts(x)) ok.push_back(x);
+    cons.push_back(k);
+    vals.push_back(ok[r.below(ok.size())]);
   }
-  sc.opNew(o, r.chance(1, 5) ? static_cast<int>(r.range(1, NNS - 1)) : 0, names, vals, cons);
+  int ns = (nsMode == 1 ? r.chance(4, 5) : r.chance(1, 5)) ? static_cast<int>(r.range(1, NNS - 1)) : 0;
+  sc.opNew(o, ns, names, vals, cons);
 }
 
 static int pickName(Rng& r, const View& v, bool allowUnknown)
@@ -471,45 +521,39 @@ static int pickName(Rng& r, const View& v, bool allowUnknown)
   return v.names[r.below(v.names.size())];
 }
 
-// bring every value of the owner to one common point inside all constraints
+// make every follower equal to its source again: write a fresh common value to every root
 static bool normalise(Scn& sc, Rng& r, int o)
 {
   View v = sc.view(o);
-  long lo = 1, hi = sc.V();
-  for (auto& c : v.con)
-  {
-    lo = std::max(lo, c.second.first);
-    hi = std::min(hi, c.second.second);
-  }
   std::vector<long> cand;
-  for (long g = lo; g <= hi; ++g)
+  for (long g = 1; g <= sc.V(); ++g)
   {
-    bool used = false;
-    for (auto& kv : v.val)
-      if (kv.second == g) used = true;
-    if (!used) cand.push_back(g);
+    bool ok = true;
+    for (int p : v.names)
+      if (!accepts(v, p, g) || v.val.at(p) == g) ok = false;
+    if (ok) cand.push_back(g);
   }
   if (cand.empty()) return false;
   long g = cand[r.below(cand.size())];
-  for (int p : v.names)
+  std::vector<int> all = v.names;
+  for (int p : all)
   {
     View w = sc.view(o);
     if (w.from.at(p) != 0) continue;
     std::vector<std::pair<int, long>> ws = {std::make_pair(p, g)};
-    if (!setAcceptable(w, p, g) || (!g_allowSC && writesDiverge(w, ws))) return false;
+    if (!g_allowSC && writesDiverge(w, ws)) return false;
     sc.opSet(o, p, g);
   }
-  View w = sc.view(o);
-  return allInside(w) && coherent(w);
+  return coherent(sc.view(o));
 }
 
-static void randomOp(Scn& sc, Rng& r)
+static void randomOp(Scn& sc, Rng& r, int nsMode)
 {
   std::vector<int> live;
   for (auto& kv : sc.own) live.push_back(kv.first);
   if (live.empty())
   {
-    makeOwner(sc, r, 1, static_cast<int>(r.below(3)));
+    makeOwner(sc, r, 1, static_cast<int>(r.below(3)), nsMode);
     return;
   }
   int o = live[r.below(live.size())];
@@ -517,14 +561,11 @@ static void randomOp(Scn& sc, Rng& r)
   size_t dice = r.below(100);
   ++g_calls;
   if (dice < 20)
-  { // alias
+  { // alias: any pair; two thirds of the time a pair the relation allows (constraints may still refuse)
     for (int t = 0; t < 6; ++t)
     {
       int a = pickName(r, v, true), b = pickName(r, v, true);
-      bool wantValid = r.chance(2, 3);
-      bool ref = aliasRefused(v, a, b);
-      if (wantValid && ref) continue;
-      if (!ref && !aliasInside(v, a, b)) continue;
+      if (r.chance(2, 3) && aliasRefused(v, a, b)) continue;
       sc.opAlias(o, a, b);
       return;
     }
@@ -543,14 +584,8 @@ static void randomOp(Scn& sc, Rng& r)
     else sc.opUnalias(o, pickName(r, v, true), pickName(r, v, true));
   }
   else if (dice < 38)
-  { // bulk alias (empty namespace, all values inside all constraints, followers equal to their sources)
-    if (v.ns != 0)
-    {
-      if (r.coin()) sc.opSetNs(o, 0);
-      else ++g_skipped;
-      return;
-    }
-    if (!(allInside(v) && coherent(v)))
+  { // bulk alias; every follower equals its source beforehand (keeps clear of the known short-circuit divergence)
+    if (!g_allowSC && !coherent(v))
     {
       if (!r.chance(3, 4) || !normalise(sc, r, o))
       {
@@ -573,17 +608,16 @@ static void randomOp(Scn& sc, Rng& r)
       size_t len = r.below(std::min<size_t>(v.names.size(), 4) + 1);
       for (size_t i = 0; i < len; ++i) m[pickName(r, v, true)] = pickName(r, v, true);
     }
-    sc.opBulkAlias(o, m);
+    sc.opBulkAlias(o, m, r.chance(2, 3));
   }
   else if (dice < 58)
-  { // set by name
+  { // set by name: any value (the parameter's or a follower's constraint may refuse it)
     for (int t = 0; t < 8; ++t)
     {
       int a = pickName(r, v, true);
       long x = r.range(1, sc.V());
       std::vector<std::pair<int, long>> ws = {std::make_pair(a, x)};
-      if (v.hasp(a) && accepts(v, a, x) && !setAcceptable(v, a, x)) continue; // a follower would refuse: outside the quantifier
-      if (v.hasp(a) && accepts(v, a, x) && !g_allowSC && writesDiverge(v, ws)) continue;
+      if (v.hasp(a) && setAcceptable(v, a, x) && !g_allowSC && writesDiverge(v, ws)) continue;
       sc.opSet(o, a, x);
       return;
     }
@@ -597,7 +631,7 @@ static void randomOp(Scn& sc, Rng& r)
       size_t len = 1 + r.below(std::min<size_t>(v.names.size(), 4));
       std::vector<std::pair<int, long>> ws;
       std::set<int> used;
-      bool bad = false, rejected = false;
+      bool refused = false;
       for (size_t i = 0; i < len; ++i)
       {
         int a = pickName(r, v, true);
@@ -611,16 +645,10 @@ static void randomOp(Scn& sc, Rng& r)
         if (need.size() > 1) continue;
         if (need.size() == 1) x = *need.begin();
         ws.push_back(std::make_pair(a, x));
-        if (v.hasp(a) && !accepts(v, a, x)) rejected = true;
+        if (v.hasp(a) && !setAcceptable(v, a, x)) refused = true;
       }
       if (ws.empty()) continue;
-      if (!rejected)
-      {
-        for (auto& w : ws)
-          if (v.hasp(w.first) && !setAcceptable(v, w.first, w.second)) bad = true;
-        if (!bad && !g_allowSC && writesDiverge(v, ws)) bad = true;
-      }
-      if (bad) continue;
+      if (!refused && !g_allowSC && writesDiverge(v, ws)) continue;
       sc.opWrites(o, ws, match);
       return;
     }
@@ -636,18 +664,18 @@ static void randomOp(Scn& sc, Rng& r)
       }
     sc.opDrop(live[r.below(live.size())]);
   }
-  else if (dice < 91)
+  else if (dice < 90)
   { // assign (also into itself)
     int t = live[r.below(live.size())];
     sc.opAssign(o, t);
   }
-  else if (dice < 96) sc.opSetNs(o, static_cast<int>(r.below(NNS)));
+  else if (dice < (nsMode == 1 ? 97u : 95u)) sc.opSetNs(o, static_cast<int>(r.below(NNS)));
   else if (dice < 98)
   {
     for (int t = 1; t <= 3; ++t)
       if (!sc.own.count(t))
       {
-        makeOwner(sc, r, t, static_cast<int>(r.below(3)));
+        makeOwner(sc, r, t, static_cast<int>(r.below(3)), nsMode);
         return;
       }
     ++g_skipped;
@@ -661,10 +689,11 @@ static void modeRandom(Rng& r, long n)
   for (long i = 0; i < n; ++i)
   {
     reset("random", i);
+    int nsMode = (i % 2 == 1) ? 1 : 0; // every other history lives under non-empty namespaces
     Scn sc(makePool(r, static_cast<size_t>(r.range(4, 6))));
-    makeOwner(sc, r, 1, static_cast<int>(r.below(3)));
+    makeOwner(sc, r, 1, static_cast<int>(r.below(3)), nsMode);
     long len = r.range(12, 40);
-    for (long k = 0; k < len; ++k) randomOp(sc, r);
+    for (long k = 0; k < len; ++k) randomOp(sc, r, nsMode);
   }
 }
 
@@ -695,11 +724,11 @@ static void modeMaps(Rng& r, int k)
       reset("maps", id++);
       Scn sc(makePool(r, 4));
       std::vector<long> vals;
-      std::vector<std::pair<long, long>> cons;
+      std::vector<Con> cons;
       for (int i = 0; i < k; ++i)
       {
         vals.push_back(r.range(1, 4));
-        cons.push_back(std::make_pair(0L, 0L));
+        cons.push_back(noCon());
       }
       sc.opNew(1, 0, names, vals, cons);
       if (pl.first != 0)
@@ -722,16 +751,27 @@ static void modeMaps(Rng& r, int k)
     }
 }
 
-static void newPlain(Scn& sc, int o, const std::vector<int>& names, const std::vector<long>& vals)
+static void newPlain(Scn& sc, int o, const std::vector<int>& names, const std::vector<long>& vals, int ns = 0)
 {
-  std::vector<std::pair<long, long>> cons(names.size(), std::make_pair(0L, 0L));
-  sc.opNew(o, 0, names, vals, cons);
+  std::vector<Con> cons(names.size(), noCon());
+  sc.opNew(o, ns, names, vals, cons);
 }
+
+static std::vector<double> plainPool(size_t n)
+{
+  std::vector<double> p;
+  for (size_t i = 0; i < n; ++i) p.push_back(-3.5 + 2.25 * static_cast<double>(i));
+  return p;
+}
+
+struct Scn;
+static void probeHistory(Scn& sc);
 
 static void modeScripted(Rng& r, long only)
 {
   long id = 0;
-  if (only < 0 || only == 0)
+  auto want = [&](long k) { return only < 0 || only == k; };
+  if (want(0))
   { // chain given in non-topological key order, then propagation through the chain
     reset("scripted", id++);
     Scn sc(makePool(r, 5));
@@ -740,7 +780,7 @@ static void modeScripted(Rng& r, long only)
     sc.opSet(1, 3, 4);
     sc.opSet(1, 3, 2);
   }
-  if (only < 0 || only == 1)
+  if (want(1))
   { // two-cycle in a map
     reset("scripted", id++);
     Scn sc(makePool(r, 5));
@@ -748,7 +788,7 @@ static void modeScripted(Rng& r, long only)
     sc.opBulkAlias(1, {{1, 2}, {2, 1}});
     sc.opSet(1, 1, 5);
   }
-  if (only < 0 || only == 2)
+  if (want(2))
   { // self alias, reverse link, three-cycle
     reset("scripted", id++);
     Scn sc(makePool(r, 5));
@@ -763,7 +803,7 @@ static void modeScripted(Rng& r, long only)
     sc.opSet(1, 1, 5);
     sc.opSet(1, 2, 1);
   }
-  if (only < 0 || only == 3)
+  if (want(3))
   { // assignment into a non-empty owner with its own links, then updates on both sides
     reset("scripted", id++);
     Scn sc(makePool(r, 6));
@@ -780,7 +820,7 @@ static void modeScripted(Rng& r, long only)
     sc.opAssign(2, 2);
     sc.opSet(2, 1, 1);
   }
-  if (only < 0 || only == 4)
+  if (want(4))
   { // copy under a namespace, rename, destroy the original, update the copy
     reset("scripted", id++);
     Scn sc(makePool(r, 6));
@@ -797,27 +837,137 @@ static void modeScripted(Rng& r, long only)
     sc.opSetNs(2, 0);
     sc.opSet(2, 2, 1);
   }
-  if (only < 0 || only == 5)
+  if (want(5))
   { // constraints: adopt, intersect, refuse a value outside
     reset("scripted", id++);
-    Scn sc(makePool(r, 6));
-    sc.opNew(1, 0, {1, 2, 3}, {3, 3, 3}, {{0, 0}, {2, 5}, {1, 4}});
+    Scn sc(plainPool(6));
+    sc.opNew(1, 0, {1, 2, 3}, {3, 3, 3}, {noCon(), mkCon(2, 5), mkCon(1, 4)});
     sc.opAlias(1, 1, 2);
     sc.opSet(1, 1, 6);
     sc.opAlias(1, 2, 3);
+    sc.opSet(1, 1, 5); // p1 follows nothing, p3's constraint reaches it through p2: refused, nothing moves
     sc.opSet(1, 1, 4);
     sc.opSet(1, 1, 2);
   }
+  if (want(6))
+  { // born under a namespace; links, cycle refusals, renames non-empty -> non-empty -> empty -> non-empty
+    reset("scripted", id++);
+    Scn sc(plainPool(6));
+    newPlain(sc, 1, {1, 2, 3, 4}, {1, 2, 3, 4}, 1);
+    sc.opAlias(1, 1, 2);
+    sc.opAlias(1, 2, 3);
+    sc.opAlias(1, 3, 1); // three-cycle under a namespace
+    sc.opAlias(1, 2, 2);
+    sc.opSet(1, 1, 5);
+    sc.opSetNs(1, 3);
+    sc.opSet(1, 1, 6);
+    sc.opAlias(1, 3, 4);
+    sc.opAlias(1, 4, 1); // four-cycle after a rename
+    sc.opSetNs(1, 2);
+    sc.opUnalias(1, 2, 3);
+    sc.opSet(1, 1, 1);
+    sc.opSet(1, 3, 2);
+    sc.opSetNs(1, 0);
+    sc.opSet(1, 1, 3);
+    sc.opSetNs(1, 1);
+    sc.opAlias(1, 2, 3);
+    sc.opSet(1, 1, 4);
+    sc.opUnalias(1, 1, 2);
+    sc.opSet(1, 2, 6);
+    sc.opSet(1, 1, 5);
+  }
+  if (want(7))
+  { // copy, assignment and bulk alias (both spellings of the map) under non-empty namespaces
+    reset("scripted", id++);
+    Scn sc(plainPool(6));
+    newPlain(sc, 1, {1, 2, 3}, {1, 1, 1}, 2);
+    newPlain(sc, 2, {1, 2, 3, 4}, {2, 2, 2, 2}, 3);
+    sc.opAlias(2, 4, 1);
+    sc.opBulkAlias(1, {{1, 2}, {2, 3}}, true);
+    sc.opBulkAlias(1, {{1, 2}, {2, 3}}, false);
+    sc.opBulkAlias(1, {}, true);
+    sc.opAlias(1, 3, 2);
+    sc.opCopy(1, 3);
+    sc.opSetNs(3, 1);
+    sc.opAlias(3, 2, 1);
+    sc.opSet(3, 3, 4);
+    sc.opSet(1, 3, 5);
+    sc.opAssign(3, 2); // owner 2 (other namespace, other parameters, own link) := owner 3
+    sc.opSet(2, 3, 6);
+    sc.opSet(3, 3, 2);
+    sc.opSetNs(2, 2);
+    sc.opUnalias(2, 2, 1);
+    sc.opSet(2, 3, 1);
+    sc.opAssign(2, 1);
+    sc.opSet(1, 3, 3);
+  }
+  if (want(8))
+  { // a current value outside the constraint it would get: the link is refused and nothing changes
+    reset("scripted", id++);
+    Scn sc(plainPool(6));
+    sc.opNew(1, 0, {1, 2, 3}, {5, 3, 2}, {mkCon(2, 6), mkCon(1, 4), noCon()});
+    sc.opAlias(1, 1, 2); // p2 fits [2,4], p1 = 5 does not
+    sc.opAlias(1, 3, 2); // p3 unconstrained would adopt [1,4]: 2 fits
+    sc.opSet(1, 3, 5);   // p3 now [1,4]: refused
+    sc.opSet(1, 3, 4);
+  }
+  if (want(9))
+  { // the chain above the source is restricted too; a write a follower would reject is refused as a whole
+    reset("scripted", id++);
+    Scn sc(plainPool(6));
+    sc.opNew(1, 0, {1, 2, 3, 4}, {3, 3, 3, 6}, {noCon(), mkCon(1, 6), mkCon(2, 4), noCon()});
+    sc.opAlias(1, 1, 2); // p2 follows p1
+    sc.opAlias(1, 2, 3); // p3 follows p2: p2, p3 share [2,4] and p1 must not push 5 down
+    sc.opSet(1, 1, 5);
+    sc.opWrites(1, {{4, 1}, {1, 6}}, false);
+    sc.opWrites(1, {{4, 2}, {1, 1}}, true);
+    sc.opSet(1, 1, 4);
+    sc.opNew(2, 0, {1, 2, 3}, {6, 3, 3}, {noCon(), noCon(), mkCon(2, 4)});
+    sc.opAlias(2, 1, 2);
+    sc.opAlias(2, 2, 3); // p1 = 6 could never be handed down: refused
+    sc.opSet(2, 1, 3);
+    sc.opAlias(2, 2, 3);
+  }
+  if (want(10))
+  { // open bounds, equal bounds with different flags, bounds that agree in six digits
+    reset("scripted", id++);
+    std::vector<double> p = {-2.0, 1.0, 123.4567891, 123.4567892, 400.0, 512.5};
+    Scn sc(p);
+    sc.opNew(1, 0, {1, 2, 3, 4}, {3, 4, 5, 4}, {mkCon(2, 5, false, true), mkCon(2, 5, true, false), mkCon(3, 6), mkCon(4, 6)});
+    sc.opAlias(1, 1, 2); // ]p2;p5] & [p2;p5[ = ]p2;p5[
+    sc.opSet(1, 1, 2);
+    sc.opSet(1, 1, 5);
+    sc.opAlias(1, 3, 4); // [p3;p6] and [p4;p6] have the same description but p3 < p4
+    sc.opSet(1, 3, 3);   // 123.4567891 is below the shared lower bound 123.4567892: refused
+    sc.opSet(1, 3, 6);
+  }
+  if (want(11))
+  { // chains whose middle already holds the written value
+    reset("scripted", id++);
+    Scn sc(plainPool(6));
+    probeHistory(sc);
+  }
+}
+
+static void probeHistory(Scn& sc)
+{
+  newPlain(sc, 1, {1, 2, 3, 4}, {1, 2, 3, 4});
+  sc.opAlias(1, 1, 2);
+  sc.opAlias(1, 2, 3);
+  sc.opAlias(1, 3, 4);
+  sc.opSet(1, 1, 2); // p2 already holds the value: p3 and p4 must follow nevertheless
+  sc.opSet(1, 3, 5);
+  sc.opSet(1, 4, 6);
+  sc.opWrites(1, {{1, 5}}, true); // p2 moves, p3 holds 5 already, p4 = 6 must become 5
+  sc.opSet(1, 2, 1);
+  sc.opWrites(1, {{1, 1}}, false); // p2, p3, p4 hold 1 already
 }
 
 static void modeProbe(Rng& r)
 {
   reset("probe", 0);
-  Scn sc(makePool(r, 5));
-  newPlain(sc, 1, {1, 2, 3}, {1, 2, 3});
-  sc.opAlias(1, 1, 2);
-  sc.opAlias(1, 2, 3);
-  sc.opSet(1, 1, 2); // p2 already holds the value: p3 is not reached
+  Scn sc(makePool(r, 6));
+  probeHistory(sc);
 }
 
 // runaway recursion in the library exhausts the stack: the SIGSEGV handler needs its own
@@ -851,7 +1001,7 @@ int main(int argc, char** argv)
     fprintf(stderr, "cannot open --out\n");
     return 2;
   }
-  g_allowSC = argInt(argc, argv, "--allow-sc", 0) != 0;
+  g_allowSC = argInt(argc, argv, "--steer-sc", 0) == 0;
   Rng r(envSeed() * 7919ULL + 31ULL * static_cast<uint64_t>(argInt(argc, argv, "--stream", 0)));
   if (mode == "random") modeRandom(r, argInt(argc, argv, "--n", 100));
   else if (mode == "maps") modeMaps(r, static_cast<int>(argInt(argc, argv, "--k", 3)));
